@@ -59,7 +59,7 @@ class Watchdog(Exception):
     pass
 
 
-ROUNDS_PER_CASE = 100000     # simulator rounds (event-loop spins + delivery calls) without a completed case => hang;
+ROUNDS_PER_CASE = 60000     # simulator rounds (event-loop spins + delivery calls) without a completed case => hang;
                              # load-independent; ordinary cases need < 6000 rounds (maximum observed is recorded in evidence)
 ROUND_STATS = {'max_rounds_per_case': 0}
 
@@ -92,7 +92,7 @@ class WatchedFifo:
         return self.fifo.deliver(net)
 
 
-def run_batch(ctx, m, t, no_prss, cases, case_coro, seed, want_log=False, arity3=ARITY, policy=None):
+def run_batch(ctx, m, t, no_prss, cases, case_coro, seed, want_log=False, arity3=ARITY, policy=None, extra=()):
     """One pass: cases run in order in one simulator; at the first case that does not complete (hang / escaped
     exception) that simulator is discarded and the rest continues in a fresh one."""
     from lib.sim import Sim
@@ -102,7 +102,7 @@ def run_batch(ctx, m, t, no_prss, cases, case_coro, seed, want_log=False, arity3
     i = 0
     restarts = 0
     while i < len(cases):
-        sim = Sim(m, t, no_prss=no_prss, seed=seed, track_tasks=False, log_messages=want_log)
+        sim = Sim(m, t, no_prss=no_prss, seed=seed, track_tasks=False, log_messages=want_log, extra=tuple(extra))
         errs = []
         sim.loop.set_exception_handler(lambda loop, c: errs.append(repr(c.get('exception'))[:200]))
         try:
@@ -157,7 +157,7 @@ def run_batch(ctx, m, t, no_prss, cases, case_coro, seed, want_log=False, arity3
     return results, logs, incomplete
 
 
-def run_cases(ctx, m, t, no_prss, cases, case_coro, seed, want_log=False, isolated=(), policy=None):
+def run_cases(ctx, m, t, no_prss, cases, case_coro, seed, want_log=False, isolated=(), policy=None, extra=()):
     """cases: list of JSON-able case descriptions.  Returns per-case results: value | ('EXC', name) | ('HANG', how) |
     ('DIVERGE', per-party values).  Cases whose index is in `isolated` (predicted not to terminate) run alone in their own
     simulator.  Every case that did not complete (HANG / escaped EXC) in a shared simulator is re-run once alone in a
@@ -165,12 +165,12 @@ def run_cases(ctx, m, t, no_prss, cases, case_coro, seed, want_log=False, isolat
     isolated = set(isolated)
     shared = [j for j in range(len(cases)) if j not in isolated]
     results = [None] * len(cases)
-    res, logs, inc = run_batch(ctx, m, t, no_prss, [cases[j] for j in shared], case_coro, seed, want_log, policy=policy)
+    res, logs, inc = run_batch(ctx, m, t, no_prss, [cases[j] for j in shared], case_coro, seed, want_log, policy=policy, extra=extra)
     for j, r in zip(shared, res):
         results[j] = r
     redo = [] if want_log else [shared[q] for q in inc] + [j for j in shared if isinstance(results[j], tuple) and results[j][:1] == ('DIVERGE',)]
     for j in sorted(isolated) + redo:
-        results[j] = run_batch(ctx, m, t, no_prss, [cases[j]], case_coro, seed, policy=policy)[0][0]
+        results[j] = run_batch(ctx, m, t, no_prss, [cases[j]], case_coro, seed, policy=policy, extra=extra)[0][0]
     if redo:
         ctx.extra['cases_rerun_in_isolation'] = ctx.extra.get('cases_rerun_in_isolation', 0) + len(redo)
     ctx.extra['max_rounds_per_case'] = ROUND_STATS['max_rounds_per_case']
@@ -672,6 +672,27 @@ def run(ctx):
     plan.append((11, 3, 1, False, cases_for(rand_pairs(11, ctx.n(3, 80), 5), OPS, kmax=1), False))
     plan.append((101, 3, 1, False, cases_for(rand_pairs(101, ctx.n(4, 100), 6), OPS, kmax=1), False))
     plan.append((101, 3, 1, True, cases_for(rand_pairs(101, ctx.n(1, 40), 5), OPS, kmax=1), False))
+    # no PRSS, three parties, TINY prime fields: many operations that invert secret coefficients (monic, gcd, gcdext, invert,
+    # division by non-monic divisors): reciprocal() then retries (mask r = 0 with probability 1/p per call) along its
+    # reshare-and-open path; lengths stay below the small-field region
+    inv_ops = [o for o in OPS if o[0] in ('monic', 'gcd', 'gcdext', 'invert', 'floordiv', 'mod', 'divmod')]
+
+    def tiny_pairs(p, cnt, maxlen):
+        out = []
+        for _ in range(cnt):
+            a = [rng.randrange(p) for _ in range(rng.randint(1, maxlen))]
+            b = [rng.randrange(p) for _ in range(rng.randint(1, maxlen))]
+            a[rng.randrange(len(a))] = rng.randrange(1, p)       # nonzero polynomials, leading coefficients arbitrary
+            b[rng.randrange(len(b))] = rng.randrange(1, p)
+            out.append((a, b))
+        return out
+    plan.append((5, 3, 1, True, cases_for(tiny_pairs(5, ctx.n(12, 100), 3), inv_ops), False))
+    plan.append((7, 3, 1, True, cases_for(tiny_pairs(7, ctx.n(24, 200), 4), inv_ops), False))
+    plan.append((11, 3, 1, True, cases_for(tiny_pairs(11, ctx.n(10, 100), 5), inv_ops), False))
+    # option --mix32-64bit (arrays travel as fixed-width byte strings, opened arrays are rebuilt by field.array()): every
+    # opened coefficient must be a reduced field element
+    plan.append((31, 3, 1, False, cases_for(rand_pairs(31, ctx.n(2, 40), 5), OPS, kmax=1), False, ('--mix32-64bit',)))
+    plan.append((101, 3, 1, True, cases_for(rand_pairs(101, ctx.n(1, 20), 5), OPS, kmax=1), False, ('--mix32-64bit',)))
 
     model_cases = []
     powmod_cases = []
@@ -692,6 +713,9 @@ def run(ctx):
         det = {'p': p, 'a': a, 'b': b, 'op': op, 'k': k, 'cfg': cfg}
         g, lens = canon(got)
         det.update({'got': g, 'want_gfpx': want})
+        flat_vals = [x for part in (g[1] if isinstance(g, tuple) and g and g[0] == 'polys' else ([g[1]] if isinstance(g, tuple) and g and g[0] == 'poly' else [])) for x in part]
+        if any(not (0 <= x < p) for x in flat_vals):
+            return ('viol', 'secpoly-%s unreduced-coefficient GF(%d) %s' % (op, p, cfg), det, [])
         pre = []
         # gfpx is the specification, but two of its GF(2) methods are themselves wrong (BinaryPolynomial.__call__ at
         # even x, BinaryPolynomial._reverse after truncation): use independent references there, report the disagreement
@@ -725,7 +749,9 @@ def run(ctx):
                 return ('viol', 'secpoly-length %s' % op, dict(det, padded_len=lens, expected=el, public_lens=[la, lb]), pre)
         return ('ok', lens, pre)
 
-    for (p, m, t, no_prss, cases, exhaustive) in plan:
+    for entry in plan:
+        (p, m, t, no_prss, cases, exhaustive) = entry[:6]
+        extra = entry[6] if len(entry) > 6 else ()
         t1 = time.time()
         todo, meta, iso = [], [], []
         for c in cases:
@@ -737,14 +763,19 @@ def run(ctx):
                 continue
             cls = known_class(p, a, bb, op, k, want)
             sf = small_field(p, a, bb, op, k)
+            if '--mix32-64bit' in extra and m > 1 and cls in (None, 'gcdext'):
+                la_, lb_ = eff_lens(p, a, bb, op)
+                if expected_len(p, op, la_, lb_, k) == 0 or (op == 'inout' and not a) or (op in ('divmod', 'rdivmod_pub') and (la_ == 0 or lb_ == 1)) \
+                        or (op == 'if_swap' and (la_ == 0 or lb_ == 0)) or (op == 'gcdext' and max(la_, lb_) == 0):
+                    cls = 'mix32-empty-output'     # F-C38-11: opening an empty array with --mix32-64bit (m > 1) raises IndexError
             # keep the number of runs that end in a hang / escaped exception (each costs a simulator restart) small:
             # one representative per (known failing class, operation) and per small-field operation, on m=1 only
-            costly = (cls in ('zero-polynomial', 'empty-operands', 'gf2-division')) or \
+            costly = (cls in ('zero-polynomial', 'empty-operands', 'gf2-division', 'mix32-empty-output')) or \
                      (cls == 'gf2-public-operand' and op not in ('add_pub', 'radd_pub', 'sub_pub', 'rsub_pub', 'mul_pub', 'rmul_pub', 'scale')) or \
                      (sf and op in HANG_PRONE)
             if costly:
-                tag = (cls if cls and cls != 'gcdext' else 'small-field', op)
-                if m == 1 and seen_cls.get(tag, 0) < 1 and sum(seen_cls.values()) < 30:
+                tag = (cls if cls and cls != 'gcdext' else 'small-field', op if cls != 'mix32-empty-output' else 'any')
+                if (m == 1 or cls == 'mix32-empty-output') and seen_cls.get(tag, 0) < (2 if cls == 'mix32-empty-output' else 1) and (cls == 'mix32-empty-output' or sum(seen_cls.values()) < 20):
                     seen_cls[tag] = seen_cls.get(tag, 0) + 1
                 else:
                     skip(('known failing class %s' % cls) if cls and cls != 'gcdext' else
@@ -756,15 +787,15 @@ def run(ctx):
             meta.append((want, cls, sf))
         coro = make_case_coro(p)
         seed = ctx.seed + p + 7 * m
-        res = run_cases(ctx, m, t, no_prss, todo, coro, seed=seed, isolated=iso)
-        cfg = 'm=%d%s' % (m, ' no-prss' if no_prss else '')
+        res = run_cases(ctx, m, t, no_prss, todo, coro, seed=seed, isolated=iso, extra=extra)
+        cfg = 'm=%d%s%s' % (m, ' no-prss' if no_prss else '', ' ' + ' '.join(extra) if extra else '')
         for c, (want, cls, sf), got in zip(todo, meta, res):
             (pi, a, b, op, k) = c
             v = judge(p, cfg, c, want, cls, sf, got)
             if v[0] == 'viol' and confirmations[0] < 200 and (cls is None or cls == 'gcdext'):
                 # confirm in isolation (fresh simulator): an earlier exception in the same batch must not be blamed on this case
                 confirmations[0] += 1
-                got = run_cases(ctx, m, t, no_prss, [c], coro, seed=seed)[0]
+                got = run_cases(ctx, m, t, no_prss, [c], coro, seed=seed, extra=extra)[0]
                 v = judge(p, cfg, c, want, cls, sf, got)
             key = {'p': p, 'a': a, 'b': b, 'op': op, 'k': k, 'cfg': cfg}
             for (sig, det) in v[-1]:
@@ -794,7 +825,7 @@ def run(ctx):
                     powmod_cases.append((op, p, a, b, k, got[1]))
         if exhaustive:
             exhaustive_done.append('GF(%d) m=%d: %d cases' % (p, m, len(todo)))
-        ctx.log('GF(%d) m=%d t=%d no_prss=%s: %d cases in %.1fs' % (p, m, t, no_prss, len(todo), time.time() - t1))
+        ctx.log('GF(%d) m=%d t=%d no_prss=%s %s: %d cases in %.1fs' % (p, m, t, no_prss, ' '.join(extra), len(todo), time.time() - t1))
     ctx.extra['exhaustive'] = bool(exhaustive_done)
     ctx.extra['exhaustive_subspaces'] = exhaustive_done
     ctx.extra['padded_length_classes_checked'] = len(lens_seen)
